@@ -4,6 +4,7 @@ CONSTANTS
   MaxCycles = 5
   ExportScripts = FALSE
   EnableFaults = FALSE
+  EnableRestart = FALSE
   SrcVals = {0}
   Dts = {1, 2, 3, 5}
 VIEW View
